@@ -14,13 +14,16 @@ use std::sync::atomic::{AtomicU64, Ordering};
 
 const MODS: [u8; 12] = [0, 1, 2, 3, 0x80, 0x81, 0x82, 0x83, 0xFC, 0xFD, 0xFE, 0xFF];
 const PREFIX: &str = "\u{0995}"; // ক — a plain consonant no rule reacts to
+/// ক্ , র , র্ , কা , আ , কঁ , "," , ক‌ (ZWNJ), ১
+const EXTRA_PREFIXES: [&str; 9] = ["\u{0995}\u{09CD}", "\u{09B0}", "\u{09B0}\u{09CD}", "\u{0995}\u{09BE}", "\u{0986}", "\u{0995}\u{0981}", ",", "\u{0995}\u{200C}", "\u{09E7}"];
 
 struct Job {
     layout: String,
     map: HashMap<String, String>,
     numpad: bool,
     fsugg: bool,
-    with_prefix: bool,
+    /// composed text before the press (set through the hook)
+    prefix: &'static str,
     /// options the result must not depend on: bit 0 English, 1 ANSI, 2 smart quotes (only the 111 published
     /// keys are pressed for the non-zero settings)
     other: u8,
@@ -58,10 +61,17 @@ pub fn run(report: &Report, _thorough: bool) -> Evidence {
             .collect();
         for numpad in [false, true] {
             for fsugg in [false, true] {
-                for with_prefix in [false, true] {
+                for prefix in ["", PREFIX] {
                     for other in 0..8u8 {
-                        jobs.push(Job { layout: l.clone(), map: map.clone(), numpad, fsugg, with_prefix, other });
+                        jobs.push(Job { layout: l.clone(), map: map.clone(), numpad, fsugg, prefix, other });
                     }
+                }
+                // further composition states, one per character class (published keys only): the un-gated rules of the
+                // composition (hasanta + sign, second hasanta, zo-fola after a bare ra, AU length mark) apply with all
+                // helpers off too, so the expectation there is the C12 reference step; where that defines nothing
+                // (rare signs, multi-code-point values) it is plain appending, as this statement says
+                for prefix in EXTRA_PREFIXES {
+                    jobs.push(Job { layout: l.clone(), map: map.clone(), numpad, fsugg, prefix, other: 1 << 7 });
                 }
             }
         }
@@ -86,14 +96,14 @@ pub fn run(report: &Report, _thorough: bool) -> Evidence {
                 let mut o = Opts::fixed(&job.layout, "", xdg);
                 o.numpad = job.numpad;
                 o.fsugg = job.fsugg;
-                o.english = job.other & 1 != 0;
+                o.english = job.other & 1 != 0 && job.other < 128;
                 o.ansi = job.other & 2 != 0;
                 o.smart = job.other & 4 != 0;
                 let mut c = Ctx::new(&o).expect("context for C04");
                 c.with_pre = false;
                 c
             });
-            let prefix = if job.with_prefix { PREFIX } else { "" };
+            let prefix = job.prefix;
             let mut count = 0u64;
             for code in (bi * 4096) as u32..((bi + 1) * 4096) as u32 {
                 let code = code as u16;
@@ -102,26 +112,36 @@ pub fn run(report: &Report, _thorough: bool) -> Evidence {
                 }
                 ctx.set_fixed(prefix, "", 0);
                 let exp_val = expected(&job.map, code, m, job.numpad);
-                let exp_text = format!("{}{}", prefix, exp_val.unwrap_or(""));
+                // (None: the un-gated rules meet a value the C12 statement defines no result for - a rare sign, a value of
+                // several code points; the key must then at least not be swallowed)
+                let exp_opt: Option<String> = match (exp_val, job.other >= 128) {
+                    (Some(v), true) => match crate::fxref::fixed_step_ref(prefix, v, &ctx.opts) {
+                        crate::fxref::RefOut::Text(t) => Some(t),
+                        _ => None,
+                    },
+                    _ => Some(format!("{}{}", prefix, exp_val.unwrap_or(""))),
+                };
+                let unspecified = exp_opt.is_none();
+                let exp_text = exp_opt.unwrap_or_default();
                 let ev = Ev::Key { code, m, sel: 0 };
                 count += 1;
                 let got = ctx.apply(&ev);
                 let bad = |kind: &str, detail: String| {
                     let mut evs = vec![];
-                    if job.with_prefix {
+                    if prefix == PREFIX {
                         evs.push(Ev::ch('k'));
                     }
                     evs.push(ev.clone());
                     let kname = keys::by_code(code).map(|k| k.name).unwrap_or("unpublished");
-                    report.add(
+                    let v =
                         Violation::new("C04", kind, &format!("{}:{}:m{}", kind, kname, m & 3))
                             .opts(&ctx.opts)
                             .feat("key", kname)
                             .feat("code", format!("0x{:04X}", code))
                             .feat("modifier", format!("{}", m))
                             .events(&evs)
-                            .detail(detail),
-                    );
+                            .detail(detail);
+                    report.add(if prefix.is_empty() || prefix == PREFIX { v } else { v.origin(prefix, "", 0) });
                 };
                 match got {
                     Err(Fail::CallPanic(p)) => bad("panic", format!("key panicked: {}", p.short())),
@@ -132,7 +152,11 @@ pub fn run(report: &Report, _thorough: bool) -> Evidence {
                             _ => unreachable!(),
                         };
                         let text = r.text();
-                        if text != exp_text {
+                        if unspecified {
+                            if text == prefix {
+                                bad("key-swallowed", format!("composition is still {:?} after a key with the value {:?}", text, exp_val.unwrap_or("")));
+                            }
+                        } else if text != exp_text {
                             bad(
                                 "wrong-text",
                                 format!("composition is {:?}, layout file says {:?}", text, exp_text),
